@@ -769,6 +769,23 @@ struct SmallSetEngine : EngineBase {
     return ops;
   }
 
+  template <class Set>
+  void drain_and_refill(SetBox<E, Set> &b) {
+    { MonScope mm; g_cur_sig += "+drain-and-refill"; }
+    std::vector<int> keys;
+    { MonScope mm; for (auto it = b.model->begin(); it != b.model->end(); ++it) keys.push_back(it->key); }
+    for (size_t i = 0; i < keys.size() && !g_cut; ++i) { Op e; e.k = O_ERASE_KEY; e.key = keys[i]; apply(b, e, false); }
+    if (g_cut) return;
+    {
+      MonScope mm;
+      std::vector<uint32_t> all;
+      long vis = 0;
+      verify_one(b, all, vis, true);
+    }
+    if (g_cut) return;
+    for (int k = 0; k < 2 && !g_cut; ++k) { Op e; e.k = O_EMPLACE; e.key = k; apply(b, e, false); }
+  }
+
   template <class Set, class C>
   bool build(SetBox<E, Set> &b, const C &c, const std::vector<Op> &path) {
     make(b, c);
@@ -804,6 +821,12 @@ struct SmallSetEngine : EngineBase {
         if (g_cut) { ++n_cut; return; }
         ledger_single(b);
         AState nx = abstract(*b.obj);
+        // The abstract state does not capture everything (elements left behind in the container that is not in use, capacities ...): after an
+        // operation that rebuilds or hands over contents, drain the set key by key and refill it - what was hidden then becomes observable.
+        if (mine && (op.k >= O_EXTRACT_KEY && op.k != O_LOOKUP && op.k != O_WALK && op.k != O_ERASE_LOOP && op.k != O_ERASE_IF)) {
+          drain_and_refill(b);
+          if (g_cut) { ++n_cut; return; }
+        }
         unmake(b);
         end_check();
         if (g_cut) { ++n_cut; return; }
